@@ -1048,3 +1048,39 @@ Qed.
 Lemma beyond_horizon_panics :
   build_outputs 60000 100 false true (repeat (10, 10) 40 ++ repeat (0, 1) 10) 34 = Panic.
 Proof. vm_compute. reflexivity. Qed.
+(* ---- poolSizeUniversal ------------------------------------------------------------------------ *)
+
+Lemma pool_years_inv y m p : pool_years y = Ok (m, p) -> 0 <= m /\ 0 <= p /\ m + p = mint_pool.
+Proof.
+  revert m p. induction y as [|y IH]; intros m p H.
+  - cbn in H. inversion H. pose proof mint_pool_nonneg. lia.
+  - cbn [pool_years] in H. apply bind_ok in H. destruct H as [[m0 p0] [H0 H]].
+    destruct (IH _ _ H0) as [Hm [Hp Hs]]. cbn [fst snd] in H.
+    rewrite product_year in H by assumption. cbn [bind] in H.
+    apply bind_ok in H. destruct H as [m1 [H1 H]]. apply i_add_inv in H1. destruct H1 as [_ [Hy ->]].
+    apply bind_ok in H. destruct H as [p1 [H2 H]]. apply i_sub_inv in H2. destruct H2 as [_ [Hle ->]].
+    inversion H. lia.
+Qed.
+
+(* the remaining pool is always within [0, MintPool] *)
+Lemma pool_size_range b r : 0 <= b -> pool_size b = Ok r -> 0 <= r <= mint_pool.
+Proof.
+  intros Hb H. unfold pool_size in H. pose proof year_days_pos as Hd.
+  apply bind_ok in H. destruct H as [[m p] [H0 H]]. cbn [fst snd] in H.
+  destruct (pool_years_inv _ _ _ H0) as [Hm [Hp Hs]].
+  rewrite product_year in H by assumption. cbn [bind] in H.
+  pose proof (year_of_bounds p Hp) as Hyb. rewrite i_div_ok in H by lia. cbn [bind] in H.
+  pose proof (day_of_bounds p Hp) as [Hd0 Hd1]. fold (day_of p) in H.
+  pose proof (Z.mod_pos_bound b year_days Hd) as Hmod.
+  assert (Hcnt : day_of p * (b mod year_days) <= year_of p).
+  { assert (day_of p * (b mod year_days) <= day_of p * year_days) by (apply Z.mul_le_mono_nonneg_l; lia). lia. }
+  apply bind_ok in H. destruct H as [mint [Hmint H]].
+  assert (Hmr : 0 <= mint <= mint_pool).
+  { destruct (0 <? b mod year_days).
+    - apply bind_ok in Hmint. destruct Hmint as [d [Hd' Hmint]]. apply i_mul_inv in Hd'.
+      destruct Hd' as [_ [_ ->]]. apply i_add_inv in Hmint. lia.
+    - inversion Hmint. lia. }
+  destruct (0 <? mint).
+  - apply i_sub_inv in H. lia.
+  - inversion H. pose proof mint_pool_nonneg. lia.
+Qed.
